@@ -251,6 +251,13 @@ def content(model: Any) -> Any:
     if operands is not None:
         out.append(('operands', [content(o) for o in operands]))
         out.append(('ops', [content(o) for o in getattr(model, '_raw_ops', ())]))
+    if type(model).__name__.startswith('Number') and hasattr(type(model), 'value'):
+        # the arithmetic value a node reports is content too (it is computed from the operands, and must be
+        # the value of the text that is printed)
+        try:
+            out.append(('value', str(model.value)))
+        except Exception as e:  # noqa: BLE001
+            out.append(('value', type(e).__name__))
     return (type(model).__name__, out)
 
 
